@@ -610,6 +610,9 @@ class QueryObjectDescriptor(CanBehaveLikeAVariable[T], ABC):
         required_vars.update(self.selected_variables)
         for var in self.selected_variables:
             required_vars.update(var._unique_variables_)
+            # a flattened element a selected expression is read off binds one element per row, like a variable: two elements of
+            # one parent are two rows also when only an attribute / an item of the element is selected.
+            required_vars.update(node for node in var._all_nodes_ if isinstance(node, Flatten))
         if child and (when_true or (when_true is None)):
             for conc in child._conclusion_:
                 required_vars.update(conc._unique_variables_)
